@@ -41,7 +41,8 @@ ASSUMPTIONS = ['angles, boundaries and buffers on the quarter-degree grid are ex
                'mdtraj.compute_dihedrals on the atom quadruples a wrapper returns gives the dihedral angles it binned; '
                'the conversion to [0,360) (and the psi shift) is repeated with the same float32 operations',
                'RaggedArray rows are read back through .lengths and row indexing; RaggedArray slicing itself is C05']
-TRUSTED_EXTRA = ['AST extraction of the boundary lists / default buffers (harness/props/c20.py:_extract) -> '
+TRUSTED_EXTRA = ['extraction of the boundary lists / default buffers / psi shift by running the wrappers with a recording '
+                 'stand-in for _rotamers, AST fallback (harness/props/c20.py:_extract) -> '
                  'lean/Model/Generated/RotamerConsts.lean']
 
 MIRRORS = [('enspara/geometry/rotamer.py', ['_rotamers', 'is_buffered_transition', 'get_gates', 'phi_rotamers',
@@ -69,165 +70,314 @@ def _lean_rat(v):
     return '(mkRat (%d) %d)' % (f.numerator, f.denominator)
 
 
+# ----------------------------------------------------------------------------------------------
+# What the library hands to `_rotamers`, and whether `transitions` handles all-quiet input.
+#
+# Primary method: DYNAMIC -- run the wrappers of the module itself with `_rotamers` and `dihedral_angles`
+# replaced by recorders (semantic: independent of local names, layout, helper functions, hoisted constants),
+# and call `transitions` on an all-quiet array.  `translate` (which only has the source tree) does this in a
+# child process that loads the two files by path; `run` does it on the staged modules.
+# Fallback: STATIC -- AST with constant propagation (function-level, then module-level assignments; a
+# boundaries parameter of a private helper is followed to the helper's call sites).
+
+def _const_list(node, envs, depth=0):
+    """literal list/tuple of numbers, or a Name bound (function level, then module level) to one"""
+    if depth > 3 or node is None:
+        return None
+    if isinstance(node, (ast.List, ast.Tuple)):
+        vals = [_const_num(e) for e in node.elts]
+        return None if (not vals or any(v is None for v in vals)) else vals
+    if isinstance(node, ast.Name):
+        for env in envs:
+            if node.id in env:
+                return _const_list(env[node.id], envs, depth + 1)
+    if isinstance(node, ast.Call) and isinstance(node.func, ast.Name) and node.func.id in ('list', 'tuple') \
+            and len(node.args) == 1:
+        return _const_list(node.args[0], envs, depth + 1)
+    return None
+
+
+def _assign_env(body_owner):
+    """name -> value node for names assigned exactly once (simple `name = expr`) in this scope"""
+    seen, env = {}, {}
+    nodes = body_owner.body if isinstance(body_owner, ast.Module) else list(ast.walk(body_owner))
+    for node in nodes:
+        if isinstance(node, ast.Assign) and len(node.targets) == 1 and isinstance(node.targets[0], ast.Name):
+            nm = node.targets[0].id
+            seen[nm] = seen.get(nm, 0) + 1
+            env[nm] = node.value
+    return {k: v for k, v in env.items() if seen[k] == 1}
+
+
+def _call_name(call):
+    f = call.func
+    return f.id if isinstance(f, ast.Name) else (f.attr if isinstance(f, ast.Attribute) else None)
+
+
+def _arg_of(call, index, kwname):
+    for kw in call.keywords:
+        if kw.arg == kwname:
+            return kw.value
+    return call.args[index] if len(call.args) > index else None
+
+
+def _default_of(fn, pname):
+    names = [a.arg for a in fn.args.args]
+    defaults = dict(zip(names[len(names) - len(fn.args.defaults):], fn.args.defaults))
+    return _const_num(defaults.get(pname)) if pname in defaults else None
+
+
+def _static_extract(repo_dir):
+    path = os.path.join(repo_dir, 'enspara', 'geometry', 'rotamer.py')
+    with open(path, 'rb') as f:
+        tree = ast.parse(f.read())
+    menv = _assign_env(tree)
+    funcs = {n.name: n for n in tree.body if isinstance(n, ast.FunctionDef)}
+    # helpers through which a boundaries PARAMETER reaches `_rotamers`: name -> (position, parameter name)
+    carriers = {'_rotamers': (1, 'hard_boundaries')}
+    for _ in range(2):
+        for fn in funcs.values():
+            params = [a.arg for a in fn.args.args]
+            for node in ast.walk(fn):
+                if isinstance(node, ast.Call) and _call_name(node) in carriers and fn.name not in carriers:
+                    pos, kw = carriers[_call_name(node)]
+                    arg = _arg_of(node, pos, kw)
+                    if isinstance(arg, ast.Name) and arg.id in params:
+                        carriers[fn.name] = (params.index(arg.id), arg.id)
+    out = {'sets': {}, 'buffers': {}, 'shift': {}, 'extra_sets': [], 'unresolved_call_sites': []}
+    for kind in ('phi', 'psi', 'chi'):
+        fn = funcs['%s_rotamers' % kind]
+        env = _assign_env(fn)
+        hb = None
+        for node in ast.walk(fn):
+            if isinstance(node, ast.Call) and _call_name(node) in carriers:
+                pos, kw = carriers[_call_name(node)]
+                vals = _const_list(_arg_of(node, pos, kw), [env, menv])
+                if vals is not None:
+                    hb = vals
+        if hb is None:
+            raise RuntimeError('%s_rotamers: cannot resolve the boundaries passed to _rotamers statically' % kind)
+        out['sets'][kind] = hb
+        bw = _default_of(fn, 'buffer_width')
+        if bw is None:
+            raise RuntimeError('%s_rotamers: no literal default for buffer_width' % kind)
+        out['buffers'][kind] = bw
+        shift = 0
+        for node in ast.walk(fn):                 # `x = angles - 100` style preparation of the angles
+            if isinstance(node, ast.Assign) and isinstance(node.value, ast.BinOp) \
+                    and isinstance(node.value.op, (ast.Sub, ast.Add)) and isinstance(node.value.left, ast.Name):
+                c = _const_num(node.value.right)
+                if c is None and isinstance(node.value.right, ast.Name):
+                    c = _const_num(menv.get(node.value.right.id)) if node.value.right.id in menv else None
+                if c is not None and c != 360:
+                    shift = c if isinstance(node.value.op, ast.Sub) else -c
+        out['shift'][kind] = shift
+    core = _default_of(funcs['_rotamers'], 'buffer_width')
+    if core is None:
+        raise RuntimeError('_rotamers: no literal default for buffer_width')
+    out['buffers']['core'] = core
+    # call sites outside the wrappers / carriers (best effort; unresolved ones are reported, not fatal)
+    for fn in funcs.values():
+        if fn.name in ('phi_rotamers', 'psi_rotamers', 'chi_rotamers') or fn.name in carriers:
+            continue
+        env = _assign_env(fn)
+        for node in ast.walk(fn):
+            if isinstance(node, ast.Call) and _call_name(node) in carriers:
+                pos, kw = carriers[_call_name(node)]
+                vals = _const_list(_arg_of(node, pos, kw), [env, menv])
+                where = 'enspara/geometry/rotamer.py:%s' % fn.name
+                if vals is None:
+                    out['unresolved_call_sites'].append(where)
+                elif vals not in list(out['sets'].values()) + [e['hb'] for e in out['extra_sets']]:
+                    out['extra_sets'].append({'where': where, 'hb': vals})
+    # the all-quiet guard, alpha-insensitive: inside `transitions` or a helper it calls, an `if` whose test says
+    # "<some name> is empty" and whose body returns / assigns a RaggedArray
+    dpath = os.path.join(repo_dir, 'enspara', 'cards', 'disorder.py')
+    with open(dpath, 'rb') as f:
+        dtree = ast.parse(f.read())
+    dfuncs = {n.name: n for n in dtree.body if isinstance(n, ast.FunctionDef)}
+    todo, seen, guard = ['transitions'], set(), False
+    while todo:
+        nm = todo.pop()
+        if nm in seen or nm not in dfuncs:
+            continue
+        seen.add(nm)
+        for node in ast.walk(dfuncs[nm]):
+            if isinstance(node, ast.Call) and _call_name(node) in dfuncs:
+                todo.append(_call_name(node))
+            if isinstance(node, ast.If) and _is_empty_test(node.test):
+                for b in node.body:
+                    val = b.value if isinstance(b, (ast.Return, ast.Assign)) else None
+                    if val is not None and 'RaggedArray' in ast.unparse(val):
+                        guard = True
+    out['all_quiet_guard'] = guard
+    out['static'] = True
+    return out
+
+
 def _is_empty_test(t):
-    """`len(X) == 0`, `X.size == 0`, `0 == len(X)`, `not len(X)`, `not X.size` with X in {columns, rows}"""
+    """`len(X) == 0`, `X.size == 0`, `0 == len(X)`, `len(X) < 1`, `not len(X)`, `not X.size` for any name X"""
     def sized(e):
         if isinstance(e, ast.Call) and isinstance(e.func, ast.Name) and e.func.id == 'len' and len(e.args) == 1 \
-                and isinstance(e.args[0], ast.Name) and e.args[0].id in ('columns', 'rows'):
+                and isinstance(e.args[0], ast.Name):
             return True
-        return isinstance(e, ast.Attribute) and e.attr == 'size' and isinstance(e.value, ast.Name) \
-            and e.value.id in ('columns', 'rows')
+        return isinstance(e, ast.Attribute) and e.attr == 'size' and isinstance(e.value, ast.Name)
     if isinstance(t, ast.UnaryOp) and isinstance(t.op, ast.Not):
         return sized(t.operand)
-    if isinstance(t, ast.Compare) and len(t.ops) == 1 and isinstance(t.ops[0], ast.Eq):
-        l, r = t.left, t.comparators[0]
-        return (sized(l) and _const_num(r) == 0) or (sized(r) and _const_num(l) == 0)
+    if isinstance(t, ast.Compare) and len(t.ops) == 1:
+        l, r, op = t.left, t.comparators[0], t.ops[0]
+        if isinstance(op, ast.Eq):
+            return (sized(l) and _const_num(r) == 0) or (sized(r) and _const_num(l) == 0)
+        if isinstance(op, ast.Lt):
+            return sized(l) and _const_num(r) == 1
+        if isinstance(op, ast.LtE):
+            return sized(l) and _const_num(r) == 0
     return False
 
 
-def _other_call_sites(repo_dir):
-    """boundary lists passed to `_rotamers` by any function other than phi_/psi_/chi_rotamers"""
-    found = []
-    root = os.path.join(repo_dir, 'enspara')
-    for dp, dn, fns in os.walk(root):
-        dn[:] = [d for d in dn if d not in ('test', '__pycache__')]
-        for fn in sorted(fns):
-            if not fn.endswith('.py'):
-                continue
-            path = os.path.join(dp, fn)
-            with open(path, 'rb') as f:
-                src = f.read()
-            if b'_rotamers' not in src:
-                continue
-            try:
-                tree = ast.parse(src)
-            except SyntaxError:
-                continue
-            for func in [n for n in ast.walk(tree) if isinstance(n, ast.FunctionDef)]:
-                if func.name in ('phi_rotamers', 'psi_rotamers', 'chi_rotamers') and fn == 'rotamer.py':
-                    continue
-                literals = {}
-                for node in ast.walk(func):
-                    if isinstance(node, ast.Assign) and len(node.targets) == 1 and isinstance(node.targets[0], ast.Name) \
-                            and isinstance(node.value, (ast.List, ast.Tuple)):
-                        vals = [_const_num(e) for e in node.value.elts]
-                        if vals and all(v is not None for v in vals):
-                            literals[node.targets[0].id] = vals
-                for node in ast.walk(func):
-                    if not isinstance(node, ast.Call):
-                        continue
-                    f_ = node.func
-                    nm = f_.id if isinstance(f_, ast.Name) else (f_.attr if isinstance(f_, ast.Attribute) else None)
-                    if nm != '_rotamers':
-                        continue
-                    arg = node.args[1] if len(node.args) > 1 else None
-                    for kw in node.keywords:
-                        if kw.arg == 'hard_boundaries':
-                            arg = kw.value
-                    vals = None
-                    if isinstance(arg, (ast.List, ast.Tuple)):
-                        vals = [_const_num(e) for e in arg.elts]
-                        if any(v is None for v in vals):
-                            vals = None
-                    elif isinstance(arg, ast.Name):
-                        vals = literals.get(arg.id)
-                    where = '%s:%s' % (os.path.relpath(path, repo_dir), func.name)
-                    if vals is None:
-                        raise RuntimeError('%s calls _rotamers with boundaries that are not a literal list; the '
-                                           'translator cannot put them into the generated constants' % where)
-                    found.append({'where': where, 'hb': vals})
-    return found
+def _dynamic_extract(rot, dis):
+    """`rot`, `dis`: module objects of rotamer.py / disorder.py.  Runs the three wrappers with recorders in
+    place of `_rotamers` / `dihedral_angles`, probes `transitions` with an all-quiet array."""
+    import inspect
+    orig_rot, orig_dih = rot._rotamers, rot.dihedral_angles
+    core = inspect.signature(orig_rot).parameters['buffer_width'].default
+    base = np.array([[30.0], [250.0], [135.5]])
+    rec = []
+
+    def fake_dih(traj, kind):
+        return base.copy(), np.zeros((1, 4), dtype=int)
+
+    def fake_rot(angles, hard_boundaries, *args, **kw):
+        bw = args[0] if args else kw.get('buffer_width', core)
+        rec.append((np.array(angles, dtype=float).ravel().copy(), [x for x in hard_boundaries], bw))
+        return np.zeros(len(angles), dtype='int16')
+
+    out = {'sets': {}, 'buffers': {'core': core}, 'shift': {}, 'extra_sets': [], 'unresolved_call_sites': []}
+    rot._rotamers, rot.dihedral_angles = fake_rot, fake_dih
+    try:
+        for kind in ('phi', 'psi', 'chi'):
+            del rec[:]
+            getattr(rot, '%s_rotamers' % kind)(None)              # default buffer_width
+            if not rec:
+                raise RuntimeError('%s_rotamers did not call _rotamers' % kind)
+            hbs = {tuple(float(x) for x in r[1]) for r in rec}
+            bws = {float(r[2]) for r in rec}
+            shifts = {tuple(np.round((base[:, 0] - r[0]) % 360, 9)) for r in rec}
+            if len(hbs) != 1 or len(bws) != 1 or len(shifts) != 1 or len(set(next(iter(shifts)))) != 1:
+                raise RuntimeError('%s_rotamers: boundaries / buffer / shift not uniform over its dihedrals' % kind)
+            hb = list(next(iter(hbs)))
+            out['sets'][kind] = [int(v) if float(v).is_integer() else v for v in hb]
+            b = next(iter(bws))
+            out['buffers'][kind] = int(b) if float(b).is_integer() else b
+            s = float(next(iter(shifts))[0])
+            out['shift'][kind] = int(s) if s.is_integer() else s
+    finally:
+        rot._rotamers, rot.dihedral_angles = orig_rot, orig_dih
+    if not isinstance(core, (int, float)):
+        raise RuntimeError('_rotamers: buffer_width default is not a number')
+    # all-quiet probe: two trajectories of three equal frames
+    try:
+        tt = dis.transitions(np.zeros((2, 3), dtype=int))
+        rows = [[int(x) for x in tt[i]] for i in range(len(tt.lengths))]
+        out['all_quiet_guard'] = rows == [[], []]
+    except Exception:  # noqa
+        out['all_quiet_guard'] = False
+    out['static'] = False
+    return out
+
+
+_CHILD = r'''
+import sys, json, importlib.util, os
+repo, here = sys.argv[1], sys.argv[2]
+sys.path.insert(0, here)
+sys.path.insert(0, repo)
+import logging
+logging.disable(logging.CRITICAL)
+def load(name, rel):
+    spec = importlib.util.spec_from_file_location(name, os.path.join(repo, rel))
+    m = importlib.util.module_from_spec(spec)
+    sys.modules[name] = m
+    spec.loader.exec_module(m)
+    return m
+rot = load('enspara.geometry.rotamer', 'enspara/geometry/rotamer.py')
+dis = load('enspara.cards.disorder', 'enspara/cards/disorder.py')
+import props.c20 as me
+print('C20JSON:' + json.dumps(me._dynamic_extract(rot, dis)))
+'''
+
+
+def _source_shas(repo_dir):
+    sh = {}
+    for rel in ('enspara/geometry/rotamer.py', 'enspara/cards/disorder.py', 'enspara/ra/ra.py', 'enspara/exception.py'):
+        try:
+            with open(os.path.join(repo_dir, rel), 'rb') as f:
+                sh[rel] = hashlib.sha256(f.read()).hexdigest()
+        except OSError:
+            sh[rel] = 'missing'
+    return sh
 
 
 def _extract(repo_dir):
-    """What the rotamer wrappers actually pass to `_rotamers`, read off the AST."""
-    path = os.path.join(repo_dir, 'enspara', 'geometry', 'rotamer.py')
-    with open(path, 'rb') as f:
-        raw = f.read()
-    tree = ast.parse(raw)
-    funcs = {n.name: n for n in tree.body if isinstance(n, ast.FunctionDef)}
-    out = {'sha': hashlib.sha256(raw).hexdigest(), 'sets': {}, 'buffers': {}, 'shift': {}}
-    for name in ('phi_rotamers', 'psi_rotamers', 'chi_rotamers'):
-        fn = funcs[name]
-        kind = name.split('_')[0]
-        # default of buffer_width
-        args = fn.args
-        names = [a.arg for a in args.args]
-        defaults = dict(zip(names[len(names) - len(args.defaults):], args.defaults))
-        bw = _const_num(defaults.get('buffer_width'))
-        if bw is None:
-            raise RuntimeError('%s: no literal default for buffer_width' % name)
-        out['buffers'][kind] = bw
-        hb, shift = None, 0
-        for node in ast.walk(fn):
-            if isinstance(node, ast.Assign) and len(node.targets) == 1 and isinstance(node.targets[0], ast.Name):
-                tgt = node.targets[0].id
-                if tgt == 'hard_boundaries':
-                    if not isinstance(node.value, (ast.List, ast.Tuple)):
-                        raise RuntimeError('%s: hard_boundaries is not a literal list' % name)
-                    vals = [_const_num(e) for e in node.value.elts]
-                    if any(v is None for v in vals):
-                        raise RuntimeError('%s: non-literal boundary' % name)
-                    if hb is not None and hb != vals:
-                        raise RuntimeError('%s: hard_boundaries assigned twice' % name)
-                    hb = vals
-                # shifted_angles = angles - 100
-                if tgt == 'shifted_angles' and isinstance(node.value, ast.BinOp) \
-                        and isinstance(node.value.op, (ast.Sub, ast.Add)):
-                    c = _const_num(node.value.right)
-                    if c is not None:
-                        shift = c if isinstance(node.value.op, ast.Sub) else -c
-        if hb is None:
-            raise RuntimeError('%s: hard_boundaries not found' % name)
-        out['sets'][kind] = hb
-        out['shift'][kind] = shift
-    core = funcs['_rotamers']
-    names = [a.arg for a in core.args.args]
-    defaults = dict(zip(names[len(names) - len(core.args.defaults):], core.args.defaults))
-    out['buffers']['core'] = _const_num(defaults.get('buffer_width'))
-    if out['buffers']['core'] is None:
-        raise RuntimeError('_rotamers: no literal default for buffer_width')
-    # other call sites of `_rotamers` anywhere in the package (outside the three wrappers): their boundary lists
-    # belong to "the sets used by the library" as well
-    out['extra_sets'] = _other_call_sites(repo_dir)
-    # disorder.transitions: does the 2-D branch guard the construction of the ragged array for input without
-    # any transition?  Recognised shape: an `if` whose test is `len(columns) == 0` / `columns.size == 0` /
-    # `not len(columns)` / `not columns.size` (columns or rows) and whose body returns (or assigns `tt` to) a
-    # RaggedArray built with one entry per trajectory (`len(assignments)` occurs in the expression).
-    dpath = os.path.join(repo_dir, 'enspara', 'cards', 'disorder.py')
-    with open(dpath, 'rb') as f:
-        draw = f.read()
-    dtree = ast.parse(draw)
-    tfn = [n for n in dtree.body if isinstance(n, ast.FunctionDef) and n.name == 'transitions'][0]
-    top_if = [n for n in tfn.body if isinstance(n, ast.If)]
-    guard = False
-    if len(top_if) == 1:
-        for stmt in top_if[0].orelse:
-            if isinstance(stmt, ast.If) and _is_empty_test(stmt.test) and not stmt.orelse:
-                for b in stmt.body:
-                    val = b.value if isinstance(b, (ast.Return, ast.Assign)) else None
-                    if val is not None:
-                        txt = ast.unparse(val)
-                        if 'RaggedArray' in txt and 'len(assignments)' in txt:
-                            guard = True
-    else:
-        guard = None
-    out['all_quiet_guard'] = guard
-    out['sha_disorder'] = hashlib.sha256(draw).hexdigest()
-    return out
+    """dynamic extraction in a child process (cached by the hashes of the files involved); static fallback.
+    Adds the other `_rotamers` call sites found statically (best effort)."""
+    import json
+    import subprocess
+    import sys
+    shas = _source_shas(repo_dir)
+    key = hashlib.sha256(json.dumps(shas, sort_keys=True).encode()).hexdigest()[:24]
+    here = os.path.dirname(os.path.dirname(os.path.abspath(__file__)))
+    cdir = os.path.join(os.path.dirname(here), '.cache', 'c20_extract')
+    cpath = os.path.join(cdir, key + '.json')
+    info, why = None, None
+    if os.path.exists(cpath):
+        try:
+            with open(cpath) as f:
+                info = json.load(f)
+        except Exception:  # noqa
+            info = None
+    if info is None:
+        try:
+            r = subprocess.run([sys.executable, '-c', _CHILD, repo_dir, here], capture_output=True, text=True,
+                               timeout=300, env={k: v for k, v in os.environ.items() if k != 'PYTHONPATH'})
+            lines = [l for l in r.stdout.split('\n') if l.startswith('C20JSON:')]
+            if r.returncode != 0 or not lines:
+                raise RuntimeError((r.stderr or r.stdout)[-600:])
+            info = json.loads(lines[-1][8:])
+            os.makedirs(cdir, exist_ok=True)
+            tmp = cpath + '.tmp%d' % os.getpid()
+            with open(tmp, 'w') as f:
+                json.dump(info, f)
+            os.replace(tmp, cpath)
+        except Exception as e:  # noqa
+            why = 'dynamic extraction failed: %s' % str(e)[-400:]
+            info = None
+    static = None
+    try:
+        static = _static_extract(repo_dir)
+    except Exception as e:  # noqa
+        if info is None:
+            raise RuntimeError('%s; static extraction failed: %s' % (why, e))
+    if info is None:
+        info = static
+        info['fallback_reason'] = why
+    elif static is not None:
+        info['extra_sets'] = static['extra_sets']
+        info['unresolved_call_sites'] = static['unresolved_call_sites']
+        info['static_agrees'] = all(static[k] == info[k] for k in ('sets', 'buffers', 'shift', 'all_quiet_guard'))
+    info['sha'] = shas['enspara/geometry/rotamer.py']
+    info['sha_disorder'] = shas['enspara/cards/disorder.py']
+    return info
 
 
 def translate(repo_dir, gen_dir):
     info = _extract(repo_dir)
-    if info['all_quiet_guard'] is None:
-        raise RuntimeError('disorder.transitions no longer has the 1-D / 2-D if-else shape')
     os.makedirs(gen_dir, exist_ok=True)
     L = []
     L.append('/-! GENERATED by harness/props/c20.py:translate from enspara/geometry/rotamer.py and')
     L.append('enspara/cards/disorder.py -- do not edit.  Boundary lists and default buffer widths as the')
-    L.append('`phi_/psi_/chi_rotamers` wrappers pass them to `_rotamers`.')
-    L.append('rotamer.py sha256 %s' % info['sha'])
-    L.append('disorder.py sha256 %s -/' % info['sha_disorder'])
+    L.append('`phi_/psi_/chi_rotamers` wrappers pass them to `_rotamers` (recorded by running the wrappers with a')
+    L.append('recording stand-in for `_rotamers`; AST with constant propagation as fallback).  The text depends only on')
+    L.append('the extracted values, so a behaviour-preserving refactoring of the source regenerates the same file. -/')
     L.append('namespace Ens.Rotamer.Generated')
     for kind in ('phi', 'psi', 'chi'):
         L.append('def %sBoundaries : List Rat := [%s]' % (kind, ', '.join(_lean_rat(v) for v in info['sets'][kind])))
@@ -241,9 +391,8 @@ def translate(repo_dir, gen_dir):
     L.append('/-- every boundary list the library hands to `_rotamers` -/')
     L.append('def boundarySets : List (List Rat) := [phiBoundaries, psiBoundaries, chiBoundaries] ++ extraBoundarySets')
     L.append('def defaultBuffers : List Rat := [phiDefaultBuffer, psiDefaultBuffer, chiDefaultBuffer, coreDefaultBuffer]')
-    L.append('/-- does the 2-D branch of `disorder.transitions` guard the construction of the ragged array for input')
-    L.append('without any transition: `if len(columns) == 0` (or an equivalent emptiness test) whose body returns one')
-    L.append('empty row per trajectory -/')
+    L.append('/-- does `disorder.transitions` handle 2-D input without any transition (probed: two trajectories of three')
+    L.append('equal frames must give two empty rows; statically: an emptiness test guarding the RaggedArray construction) -/')
     L.append('def transitionsAllQuietGuard : Bool := %s' % ('true' if info['all_quiet_guard'] else 'false'))
     L.append('end Ens.Rotamer.Generated')
     text = '\n'.join(L) + '\n'
@@ -260,7 +409,10 @@ def translate(repo_dir, gen_dir):
     return {'summary': 'sets %s extra call sites %s buffers %s shift %s all_quiet_guard %s' % (
                 info['sets'], info['extra_sets'], info['buffers'], info['shift'], info['all_quiet_guard']),
             'file': 'lean/Model/Generated/RotamerConsts.lean', 'sha256_rotamer_py': info['sha'],
-            'sha256_disorder_py': info['sha_disorder'], 'rewritten': old != text}
+            'sha256_disorder_py': info['sha_disorder'], 'rewritten': old != text,
+            'static': bool(info.get('static')), 'static_agrees': info.get('static_agrees'),
+            'fallback_reason': info.get('fallback_reason'),
+            'unresolved_call_sites': info.get('unresolved_call_sites', [])}
 
 
 # ----------------------------------------------------------------------------------------------
@@ -1291,10 +1443,48 @@ def t_request(case):
 
 # ----------------------------------------------------------------------------------------------
 
+def _staged_info(ctx):
+    """boundary sets / buffers / shifts / guard flag of the STAGED library.  Never raises: dynamic extraction on
+    the staged modules, then the source-tree extraction (child process, then AST), then the constants of the
+    last Generated file (reported as a broken correspondence)."""
+    errs = []
+    try:
+        from enspara.geometry import rotamer
+        from enspara.cards import disorder
+        info = _dynamic_extract(rotamer, disorder)
+        try:
+            from enspara import __file__ as ens_file
+            st = _static_extract(os.path.dirname(os.path.dirname(ens_file)))
+            info['extra_sets'], info['unresolved_call_sites'] = st['extra_sets'], st['unresolved_call_sites']
+        except Exception as e:  # noqa
+            info['unresolved_call_sites'] = ['static scan failed: %s' % str(e)[:200]]
+        return info
+    except Exception as e:  # noqa
+        errs.append('dynamic: %s' % str(e)[:300])
+    try:
+        from enspara import __file__ as ens_file
+        return _extract(os.path.dirname(os.path.dirname(ens_file)))
+    except Exception as e:  # noqa
+        errs.append('source tree: %s' % str(e)[:300])
+    consts = ctx.driver([{'op': 'C20.consts'}])[0].get('ok', {})
+
+    def val(q):
+        f = Fraction(q[0], q[1])
+        return int(f) if f.denominator == 1 else float(f)
+    csets = [[val(v) for v in hb] for hb in consts.get('sets', [])]
+    cb = [val(v) for v in consts.get('buffers', [15, 15, 15, 15])]
+    cs = [val(v) for v in consts.get('shifts', [0, 100, 0])]
+    ctx.disagreement('translator cannot read the boundary sets of the staged library (%s); continuing with the '
+                     'constants of the last Generated file' % '; '.join(errs), {'t': 'consts', 'errors': errs})
+    return {'sets': dict(zip(('phi', 'psi', 'chi'), csets[:3])),
+            'extra_sets': [{'where': 'Generated', 'hb': hb} for hb in csets[3:]],
+            'buffers': dict(zip(('phi', 'psi', 'chi', 'core'), cb)), 'shift': dict(zip(('phi', 'psi', 'chi'), cs)),
+            'all_quiet_guard': bool(consts.get('all_quiet_guard')), 'static': None, 'unresolved_call_sites': []}
+
+
 def run(ctx):
-    from enspara import __file__ as ens_file
-    repo_dir = os.path.dirname(os.path.dirname(ens_file))
-    info = _extract(repo_dir)
+    info = _staged_info(ctx)
+    ctx.note('extraction', {'static': info.get('static'), 'unresolved_call_sites': info.get('unresolved_call_sites', [])})
     sets, shifts = dict(info['sets']), info['shift']
     for i, e in enumerate(info['extra_sets']):                        # other `_rotamers(` call sites, if any
         sets['extra%d' % i] = e['hb']
@@ -1386,8 +1576,7 @@ def replay(ctx, case):
     elif t == 'rot-err':
         check_rot_err(ctx, case, call_rotamers(case), ctx.driver([rot_request(case)])[0])
     elif t == 'wrapper':
-        from enspara import __file__ as ens_file
-        info = _extract(os.path.dirname(os.path.dirname(ens_file)))
+        info = _staged_info(ctx)
         wrapper_scope(ctx, info['sets'], info['shift'], case['wseed'], case['thorough'])
     elif t == 'hist':
         c = {k: v for k, v in case.items() if k not in ('failing_step', 'got', 'model')}
